@@ -8,13 +8,17 @@ top-level call that was given option groups I (imf), E (envelope), X (extrema):
    every interp_envelope event   (inside an extraction) has kwargs >= E, extrema_opts == X
    every get_padded_extrema event (inside an envelope)  has kwargs >= X
 in every process that took part."""
+import json
 import os
 import shutil
+import subprocess
+import sys
 
 import numpy as np
 
 from .. import gens
-from ..harness import WORK, watchdog, WatchdogTimeout, digest, jsonable
+from ..harness import WORK, VERIF, REPO, watchdog, WatchdogTimeout, digest, jsonable
+from ..refmodels import ref_envelope_opts
 from ..monitors import StageTrace
 
 MANIFEST = {
@@ -281,9 +285,130 @@ def run_cell(ctx, tr, cell, sigk):
     return events
 
 
+# extrema option sets for the leaf-level oracle (np.pad modes that are not symmetric under a change of sign included)
+EXT_LEAF = EXT + [{'pad_width': 2, 'mag_pad_opts': {'mode': 'maximum', 'stat_length': 3}},
+                  {'pad_width': 3, 'mag_pad_opts': {'mode': 'minimum', 'stat_length': 2}},
+                  {'pad_width': 2, 'mag_pad_opts': {'mode': 'constant', 'constant_values': .5}},
+                  {'pad_width': 2, 'mag_pad_opts': {'mode': 'linear_ramp', 'end_values': 1.5}},
+                  {'pad_width': 4, 'mag_pad_opts': {'mode': 'median', 'stat_length': 3}, 'loc_pad_opts': {'mode': 'reflect', 'reflect_type': 'odd'}},
+                  {'pad_width': 1, 'parabolic_extrema': True, 'mag_pad_opts': {'mode': 'maximum', 'stat_length': 2}}]
+
+
+def leaf_checks(ctx, rng):
+    """Fourth oracle (leaf level): what the envelope stage computes from the supplied options equals an envelope built from first
+    principles (own extrema, np.pad with the supplied options applied to the extrema magnitudes as they are, scipy interpolant).
+    The trace specification shows that options ARRIVE at the stage; this shows that they GOVERN it."""
+    from emd import sift as S
+    for xi, X in enumerate(EXT_LEAF):
+        for k in range(3):
+            x = make_signal(k) * float(gens.pick(rng, [1, 1, -1, 3.5])) + float(gens.pick(rng, [0, 0, 2, -1]))
+            for E in ENV + [{'interp_method': 'splrep'}]:
+                for mode in ('upper', 'lower', 'combined'):
+                    case = {'kind': 'leaf', 'x': x, 'extrema_opts': X, 'envelope_opts': E, 'mode': mode}
+                    ctx.case(digest(x, X, E, mode), True)
+                    try:
+                        got = S.interp_envelope(x.copy(), mode=mode, **E, extrema_opts={kk: (dict(v) if isinstance(v, dict) else v) for kk, v in X.items()})
+                        ref = ref_envelope_opts(x, mode, E['interp_method'], **X)
+                    except Exception as ex:
+                        ctx.violation('leaf-exception:%s' % type(ex).__name__, 'interp_envelope(mode=%s, %s, extrema_opts=%s) raised %s: %s'
+                                      % (mode, E, X, type(ex).__name__, str(ex)[:100]), case)
+                        continue
+                    ctx.count('leaf_envelope_comparisons')
+                    if (got is None) != (ref is None) or (got is not None and np.abs(np.asarray(got).reshape(-1) - ref).max() > 1e-9 * np.abs(x).max()):
+                        ctx.violation('leaf-envelope:%s:%s' % (mode, X.get('mag_pad_opts', {}).get('mode', 'default')),
+                                      'interp_envelope(mode=%s, %s, extrema_opts=%s) differs from the envelope built from first principles with the '
+                                      'same options (max diff %s)' % (mode, E, X, 'n/a' if got is None or ref is None else
+                                                                      '%.3g' % np.abs(np.asarray(got).reshape(-1) - ref).max()), case)
+
+
+def variant_call(S, name, route, I, E, X, x, npr):
+    """A zero-noise / deterministic call of one variant with the options delivered by one route."""
+    extra = dict(max_imfs=2)
+    if name == 'mask_sift':
+        extra.update(mask_freqs=[0.3, 0.12], nphases=3, nprocesses=npr)
+    else:
+        extra.update(nensembles=3, nprocesses=npr, ensemble_noise=0.0)
+    if route == 'kw':
+        out = getattr(S, name)(x, imf_opts=dict(I), envelope_opts=dict(E), extrema_opts=dict(X), **extra)
+    else:
+        cfg = S.get_config(name)
+        for grp, d in (('imf_opts', I), ('envelope_opts', E), ('extrema_opts', X)):
+            for k, v in d.items():
+                cfg[grp + '/' + k] = v
+        for k, v in extra.items():
+            cfg[k] = v
+        out = getattr(S, name)(x, **cfg) if route == 'cfg' else cfg.get_func()(x)
+    return out[0] if isinstance(out, tuple) else out
+
+
+def start_method_probe(ctx, rng, method):
+    """"... on any code path, including worker processes": the same calls in an interpreter whose worker processes are started by
+    `spawn` / `forkserver` (they import the library afresh instead of inheriting the parent's memory). Recording wrappers do not
+    exist in such workers, so this is judged on outputs: the zero-noise ensemble sift must equal the classic sift with the same
+    options, the zero-noise complete ensemble and the masked sift must equal the result obtained here."""
+    from emd import sift as S
+    jobs = []
+    for _ in range(6):
+        jobs.append({'name': gens.pick(rng, ['ensemble_sift', 'complete_ensemble_sift', 'mask_sift']), 'route': gens.pick(rng, ROUTES),
+                     'i': int(rng.integers(3)), 'e': int(rng.integers(len(ENV))), 'x': int(rng.integers(len(EXT))), 'sig': int(rng.integers(3)), 'npr': int(rng.integers(1, 4))})
+    if _FORCED_JOBS:
+        jobs = _FORCED_JOBS
+    env = dict(os.environ, EMD_REPO=REPO, PYTHONPATH=VERIF)
+    case = {'kind': 'start_method', 'method': method, 'jobs': jobs}
+    try:
+        p = subprocess.run([sys.executable, '-W', 'ignore', '-m', 'emdverif.props.C06', method, json.dumps(jobs)], capture_output=True, text=True,
+                           timeout=600, env=env, cwd=VERIF)
+        res = json.loads([l for l in p.stdout.splitlines() if l.startswith('OUT ')][-1][4:])
+    except Exception as ex:
+        ctx.count('start_method_probe_failed')
+        ctx.note('start-method probe (%s) failed: %s' % (method, str(ex)[:200]))
+        return
+    for j, r in zip(jobs, res):
+        I, E, X, x = dict(IMF[j['i']]), ENV[j['e']], EXT[j['x']], make_signal(j['sig'])
+        ctx.case(digest(method, j), True)
+        if isinstance(r, str):
+            ctx.violation('start-method-exception:%s' % j['name'], '%s via route %s raised %s when worker processes are started by %s'
+                          % (j['name'], j['route'], r, method), case)
+            continue
+        got = np.array(r)
+        if j['name'] in ('mask_sift', 'complete_ensemble_sift'):
+            # (deterministic calls: the reference is the same call made here, where the trace specification is checked;
+            # a zero-noise complete ensemble is not the classic sift beyond its first component)
+            ref = variant_call(S, j['name'], 'kw', I, E, X, x, 1)
+        else:
+            ref = S.sift(x, max_imfs=2, imf_opts=I, envelope_opts=E, extrema_opts=X)
+        dflt = S.sift(x, max_imfs=2) if j['name'] != 'mask_sift' else S.mask_sift(x, max_imfs=2, mask_freqs=[0.3, 0.12], nphases=3)
+        k = min(got.shape[1], ref.shape[1])
+        ctx.count('start_method_comparisons:' + method)
+        if dflt.shape != ref.shape or np.abs(dflt - ref).max() > 1e-3:
+            ctx.count('start_method_comparisons_where_options_matter')
+        if np.abs(got[:, :k] - ref[:, :k]).max() > 1e-9 * np.abs(x).max():
+            ctx.violation('start-method:%s' % j['name'], '%s via route %s, nprocesses=%d, worker processes started by %s: the result differs from '
+                          'the one obtained with the supplied options (max diff %.3g; distance to the all-defaults result %.3g)'
+                          % (j['name'], j['route'], j['npr'], method, np.abs(got[:, :k] - ref[:, :k]).max(),
+                             np.abs(got[:, :k] - dflt[:, :k]).max() if dflt.shape[0] == got.shape[0] else float('nan')), case)
+
+
+def _replay_start_method(ctx, case):
+    # run the probe on the recorded job list
+    global _FORCED_JOBS
+    _FORCED_JOBS = case['jobs']
+    try:
+        start_method_probe(ctx, np.random.default_rng(0), case['method'])
+    finally:
+        _FORCED_JOBS = None
+
+
+_FORCED_JOBS = None
+
+
 def run_shard(ctx):
     from emd import sift as S
     cells = grid()
+    if ctx.shard % 4 == 0:
+        leaf_checks(ctx, ctx.rng)
+    if ctx.shard % 4 == 2:
+        start_method_probe(ctx, ctx.rng, 'spawn' if ctx.shard % 8 == 2 else 'forkserver')
     tdir = os.path.join(WORK, 'C06', 'trace_%d' % ctx.shard)
     shutil.rmtree(tdir, ignore_errors=True)
     targets = [(S, 'get_next_imf', 'gni'), (S, 'interp_envelope', 'env'), (S, 'get_padded_extrema', 'ext')]
@@ -342,6 +467,10 @@ def finalize(agg, tier):
                 continue
             if c.get('cell:%s:%s' % (n, rt), 0) < 1:
                 r.append('no call for variant %s via route %s' % (n, rt))
+    for k, need in [('leaf_envelope_comparisons', 500), ('start_method_comparisons:spawn', 6), ('start_method_comparisons:forkserver', 6),
+                    ('start_method_comparisons_where_options_matter', 6)]:
+        if c.get(k, 0) < need:
+            r.append('%s: %d < %d' % (k, c.get(k, 0), need))
     if c.get('multiproc_calls_with_2+_worker_pids', 0) < 10:
         r.append('only %d multi-process calls showed events from >= 2 worker pids' % c.get('multiproc_calls_with_2+_worker_pids', 0))
     if c.get('calls_missing_a_stage', 0) > 0.05 * max(c.get('top_level_calls', 1), 1):
@@ -353,8 +482,33 @@ def finalize(agg, tier):
 
 def replay(ctx, case):
     from emd import sift as S
+    if case['kind'] == 'leaf':
+        got = S.interp_envelope(np.asarray(case['x'], float), mode=case['mode'], **case['envelope_opts'], extrema_opts=case['extrema_opts'])
+        ref = ref_envelope_opts(case['x'], case['mode'], case['envelope_opts']['interp_method'], **case['extrema_opts'])
+        if (got is None) != (ref is None) or (got is not None and np.abs(np.asarray(got).reshape(-1) - ref).max() > 1e-9 * np.abs(case['x']).max()):
+            ctx.violation('leaf-envelope:%s:%s' % (case['mode'], case['extrema_opts'].get('mag_pad_opts', {}).get('mode', 'default')), 'replayed leaf difference', case)
+        return
+    if case['kind'] == 'start_method':
+        return _replay_start_method(ctx, case)
     tdir = os.path.join(WORK, 'C06', 'trace_replay')
     targets = [(S, 'get_next_imf', 'gni'), (S, 'interp_envelope', 'env'), (S, 'get_padded_extrema', 'ext')]
     with StageTrace(tdir, targets) as tr:
         run_cell(ctx, tr, tuple(case['cell']), case['signal'])
     shutil.rmtree(tdir, ignore_errors=True)
+
+
+if __name__ == '__main__':
+    # the fresh-interpreter side of start_method_probe
+    import multiprocessing as mp
+    mp.set_start_method(sys.argv[1])
+    from emdverif.harness import bootstrap
+    bootstrap(require_fork=False)
+    from emd import sift as S_
+    res = []
+    for j in json.loads(sys.argv[2]):
+        try:
+            out = variant_call(S_, j['name'], j['route'], dict(IMF[j['i']]), ENV[j['e']], EXT[j['x']], make_signal(j['sig']), j['npr'])
+            res.append(np.asarray(out).tolist())
+        except Exception as ex:
+            res.append('%s: %s' % (type(ex).__name__, str(ex)[:100]))
+    print('OUT ' + json.dumps(res))
